@@ -1,9 +1,9 @@
 (* C08 — soundness of the checker the harness runs on implementation outputs *)
 From Coq Require Import List Arith NArith ZArith Bool Lia Permutation Sorting.Sorted.
-From Outrank Require Import Common.Median Pipeline.Stream Pipeline.Aggregate Pipeline.AggregateProofs Pipeline.C08Model.
+From Outrank Require Import Common.Median Pipeline.Stream Pipeline.Aggregate Pipeline.AggregateProofs Pipeline.PerBatch Pipeline.C08Model.
 Import ListNotations.
 
-Definition close2P (a b : Z) : Prop := (Z.abs (a - b) * 1000000000000 <= Z.max (Z.abs a) (Z.abs b))%Z.
+Definition close2P (a b : Z) : Prop := (Z.abs (a - b) * 4503599627370496 <= Z.max (Z.abs a) (Z.abs b))%Z.
 Definition tables_close (t1 t2 : table) : Prop :=
   Forall2 (fun r1 r2 : row => fst r1 = fst r2 /\ close2P (snd r1) (snd r2))
           (isort row_canon_leb t1) (isort row_canon_leb t2).
@@ -27,11 +27,13 @@ Theorem check_sound k ob oi oc of : verdict_ok (C08_check k (ob, oi, oc, of)) = 
   /\ length oc = length ref
   /\ (forall j, (j < length ref)%nat -> tables_close (aggregate (concat (map score (firstn (S j) ref)))) (nth j oc []))
   /\ StronglySorted Z.le (map snd of)
-  /\ tables_close (aggregate (concat (map score ref))) of.
+  /\ tables_close (aggregate (concat (map score ref))) of
+  /\ (forall b r r', In b ref -> In r (score b) -> In r' (score b) -> fst r = fst r' -> snd r = snd r')
+  /\ tables_close (aggregate (concat (map batch_once (map score ref)))) of.
 Proof.
-  unfold verdict_ok, C08_check. cbn [v_batches v_invalid v_nckpt v_ckpts v_sorted v_final].
-  rewrite !andb_true_iff. intros (((((Hb & Hi) & Hn) & Hc) & Hs) & Hf). cbn zeta.
-  repeat split.
+  unfold verdict_ok, C08_check. cbn [v_batches v_invalid v_nckpt v_ckpts v_sorted v_final v_uniform v_per_batch].
+  rewrite !andb_true_iff. intros (((((((Hb & Hi) & Hn) & Hc) & Hs) & Hf) & Hu) & Hp). cbn zeta.
+  repeat match goal with |- _ /\ _ => split end.
   - apply (list_eqb_eq _ N_list_eqb_eq). exact Hb.
   - apply Nat.eqb_eq. exact Hi.
   - apply Nat.eqb_eq. exact Hn.
@@ -39,6 +41,9 @@ Proof.
     apply in_map_iff. exists j. split; [reflexivity|]. apply in_seq. lia.
   - apply sortedb_sound. exact Hs.
   - apply table_close_sound. exact Hf.
+  - intros b r r' Hbin. apply batch_uniformb_sound. rewrite forallb_forall in Hu. apply Hu.
+    apply in_map_iff. exists b. split; [reflexivity|exact Hbin].
+  - apply table_close_sound. rewrite map_map. exact Hp.
 Qed.
 
 (* ---------------------------------------------------------------------------------------------------------- *)
